@@ -550,6 +550,9 @@ pub fn generate(stream: &str, tier: &str, seed: u64) -> Vec<String> {
             }
         }
         "l1.dir.c13" => {
+            for cfg in ["wv1", "exp"] {
+                lag_partial_cache_case(&mut rng, cfg, if thorough { 120 } else { 48 }, &mut out);
+            }
             for i in 0..ncases {
                 let o = DirOpts { epochs: epochs.max(10), users: users.min(5), lookups: false, histories: false, audits: false, dumps: false, tombstones: false, proofs: false, hot_user: true, audit_adv: false, lookup_adv: false, history_adv: false, lag: true };
                 dir_case(&mut rng, if i % 2 == 0 { "wv1" } else { "exp" }, &o, &mut out);
@@ -1146,4 +1149,46 @@ fn big_batch_case(rng: &mut Rng, cfg: &str, n: usize, out: &mut Vec<String>) {
     }
     out.push("dir.audit 1 3".into());
     out.push("dir.verify.audit 0 3".into());
+}
+
+
+/// a reader with a long-lived cache that is only PARTLY warm: it has served one label, then the directory moves on by two
+/// and by three epochs (other labels change), then it is asked about every label — nodes it never read are no longer
+/// available as of its epoch.  Judged by the C13 oracle alone (error, or a published pair with a verifying proof).
+fn lag_partial_cache_case(rng: &mut Rng, cfg: &str, n: usize, out: &mut Vec<String>) {
+    let rt = rt();
+    out.push(format!("reset {cfg}"));
+    out.push(format!("ck {}", key_hex(&rt)));
+    let labels: Vec<Vec<u8>> = (0..n).map(|i| vec![0xc3, i as u8, rng.below(256) as u8]).collect();
+    for u in &labels {
+        for v in 1..=4u64 {
+            for fresh in [true, false] {
+                out.push(format!("vrf {} {} {} {}", hex_or_dash(u), if fresh { "F" } else { "S" }, v, show_label(&vrf_label(&rt, cfg, u, fresh, v))));
+            }
+        }
+    }
+    let pairs = |rng: &mut Rng, idx: &[usize]| idx.iter().map(|i| format!("{} {}", hex_or_dash(&labels[*i]), hex_or_dash(&rng.bytes(3)))).collect::<Vec<_>>().join(" ");
+    let all: Vec<usize> = (0..n).collect();
+    out.push(format!("dir.publish {}", pairs(rng, &all)));
+    out.push("o.lagc.new 20".into());
+    out.push("o.lagc.epochhash 20".into());
+    out.push(format!("o.lagc.lookup 20 {}", hex_or_dash(&labels[0])));
+    out.push("o.lagc.new 21".into());
+    out.push(format!("o.lagc.history 21 {} complete", hex_or_dash(&labels[n - 1])));
+    let some: Vec<usize> = (1..n / 3).collect();
+    for round in 0..3 {
+        out.push(format!("dir.publish {}", pairs(rng, &some)));
+        if round == 0 {
+            continue;
+        }
+        for r in [20usize, 21] {
+            out.push(format!("o.lagc.epochhash {r}"));
+            for i in (0..n).step_by(if round == 1 { 2 } else { 3 }) {
+                out.push(format!("o.lagc.lookup {r} {}", hex_or_dash(&labels[i])));
+            }
+            out.push(format!("o.lagc.history {r} {} complete", hex_or_dash(&labels[1])));
+            out.push(format!("o.lagc.history {r} {} recent:1", hex_or_dash(&labels[n / 2])));
+            out.push(format!("o.lagc.audit {r} 0 1"));
+        }
+    }
 }
